@@ -42,15 +42,15 @@ import (
 
 const (
 	twccURI   = "http://www.ietf.org/id/draft-holmer-rmcat-transport-wide-cc-extensions-01"
-	histSize  = 250                 // the adapter's documented history (statement: "most recent 250 sends")
-	ntpOffset = int64(2208988800)   // seconds between 1900 and 1970
-	ntpWrapNs = int64(65536) * 1e9  // the 32-bit report timestamp wraps every 65536 s
-	ccfbTolNs = int64(15259 + 1)    // 1/65536 s, rounded up
+	histSize  = 250                // the adapter's documented history (statement: "most recent 250 sends")
+	ntpOffset = int64(2208988800)  // seconds between 1900 and 1970
+	ntpWrapNs = int64(65536) * 1e9 // the 32-bit report timestamp wraps every 65536 s
+	ccfbTolNs = int64(15259 + 1)   // 1/65536 s, rounded up
 )
 
 func cases(tier string) int {
 	if tier == "thorough" {
-		return 300000
+		return 200000
 	}
 	return 2500
 }
@@ -471,27 +471,28 @@ type world struct {
 	fbSer   int
 
 	// generation parameters (per case)
-	profile          int // 0 small, 1 medium (>250 in flight), 2 huge (>65536 in flight)
-	pRecv, pLarge    float64
-	pStay            float64
-	pBeyond          float64
-	pResend          float64
-	recentRaw        [][]byte
-	sigSeen          map[string]bool
-	recentDecs       []*fbDec
-	lossP, fbLossP   float64
+	profile           int // 0 small, 1 medium (>250 in flight), 2 huge (>65536 in flight)
+	pRecv, pLarge     float64
+	pStay             float64
+	pBeyond           float64
+	pResend           float64
+	recentRaw         [][]byte
+	sigSeen           map[string]bool
+	recentDecs        []*fbDec
+	lossP, fbLossP    float64
 	baseDelay, jitter time.Duration
 
 	// closed loop
-	twRec   *twcc.Recorder
-	ccRec   *rfc8888.Recorder
-	pend    arrHeap
-	pendN   int
-	fbq     []queuedFB
-	fbqN    int
-	rxOffUS int64
-	rxSkew  time.Duration
-	inLoss  bool
+	twRec               *twcc.Recorder
+	ccRec               *rfc8888.Recorder
+	pend                arrHeap
+	pendN               int
+	fbq                 []queuedFB
+	fbqN                int
+	rxOffUS             int64
+	fbEvery, sinceBuild int // closed loop: the receiver also builds feedback every fbEvery packets sent
+	rxSkew              time.Duration
+	inLoss              bool
 
 	// evidence
 	hazard   bool
@@ -526,6 +527,7 @@ func newWorld(c *vf.Case, k caseKind) *world {
 	w.baseDelay = time.Duration(r.Pick(1, 5, 20, 80)) * time.Millisecond
 	w.jitter = time.Duration(r.Pick(0, 1, 5, 30)) * time.Millisecond
 	w.rxOffUS = int64(r.Range(1_000_000, 2_000_000_000))
+	w.fbEvery = r.Pick(25, 60, 150, 400, 1<<30)
 	w.rxSkew = time.Duration(r.Range(-3600, 3600))*time.Second + time.Duration(r.Intn(1e9))
 	return w
 }
@@ -806,7 +808,7 @@ func (t *rtpfbTarget) deliver(raw []byte, _ []rtcp.Packet, decs []*fbDec) {
 	if pan != nil {
 		cls := "plain"
 		for _, d := range decs {
-			if d.twcc && d.class() != "plain" {
+			if d.twcc && d.class() != "plain" && cls != "run-length-beyond-status-count" {
 				cls = d.class()
 			}
 		}
@@ -1302,6 +1304,9 @@ func (w *world) sendBurst(n int, gap func() time.Duration) {
 		w.clk.Advance(gap())
 		w.sendOn(w.streams[w.r.Intn(len(w.streams))])
 		if w.k.loop {
+			if w.sinceBuild++; w.sinceBuild >= w.fbEvery {
+				w.loopBuild()
+			}
 			w.deliverDue()
 		}
 	}
@@ -1529,16 +1534,26 @@ func (w *world) handTWCC() []byte {
 			i += min(7, rem)
 		}
 	}
+	ref := uint32(r.Pick(1, 1<<24-1, r.Range(1, 1<<24-1), r.Range(1<<10, 1<<20)))
+	// The feedback's clock (reference time + every prefix sum of the deltas) stays above its
+	// zero instant: an Acknowledgment can only say "not arrived" by a zero arrival time, so an
+	// arrival exactly at the zero instant would be ambiguous.
+	clock := int64(ref) * 256 // in 250 us ticks
 	for _, s := range syms {
 		switch s {
 		case 1:
-			deltas = append(deltas, byte(r.Pick(0, 1, 4, 255, r.Intn(256))))
+			v := r.Pick(0, 1, 4, 255, r.Intn(256))
+			clock += int64(v)
+			deltas = append(deltas, byte(v))
 		case 2:
-			v := int16(r.Pick(-32768, -1, -4, 256, 32767, r.Range(-32768, 32767), r.Range(0, 255)))
-			deltas = binary.BigEndian.AppendUint16(deltas, uint16(v))
+			v := r.Pick(-32768, -1, -4, -256, 256, 32767, r.Range(-32768, 32767), r.Range(0, 255))
+			if clock+int64(v) < 1 {
+				v = min(-v, 32767)
+			}
+			clock += int64(v)
+			deltas = binary.BigEndian.AppendUint16(deltas, uint16(int16(v)))
 		}
 	}
-	ref := uint32(r.Pick(1, 1<<24-1, r.Range(1, 1<<24-1), r.Range(1<<10, 1<<20)))
 	media := r.U32()
 	if len(w.twccStr) > 0 && r.Chance(0.8) {
 		media = w.twccStr[r.Intn(len(w.twccStr))].ssrc
@@ -1634,6 +1649,7 @@ func (w *world) channel(s *sendRec) {
 
 func (w *world) loopBuild() {
 	now := w.clk.Now()
+	w.sinceBuild = 0
 	defer func() {
 		if p := recover(); p != nil {
 			w.c.Inconclusive("the library's feedback generator panicked (not this property): %v", p)
